@@ -147,11 +147,15 @@ def _drive(root, argv, env, log, sigplan, timeout):
             orig(b)
         out._add = _add
 
+    def after_main():
+        # a real signal that arrives once Conductor's main() is over must not hit the harness code that reports the result
+        signal.pthread_sigmask(signal.SIG_BLOCK, {signal.SIGINT, signal.SIGTERM})
+
     r, w = os.pipe()
     pid = os.fork()
     if pid == 0:
         os.close(r)
-        isolate._child(w, root, argv, None, None, None, env, pre, None, True)
+        isolate._child(w, root, argv, None, None, None, env, pre, None, True, after_main if sigplan else None)
     os.close(w)
     info = {"signal_sent": False, "pid": pid}
     chunks = []
@@ -184,7 +188,10 @@ def _drive(root, argv, env, log, sigplan, timeout):
                     if len(_read_log(log)) >= sigplan["after_lines"]:
                         fire_at = time.monotonic() + sigplan["delay_ms"] / 1000.0
                 if fire_at is not None and time.monotonic() >= fire_at:
-                    info["lines_at_signal"] = len(_read_log(log))
+                    at = _read_log(log)
+                    info["lines_at_signal"] = len(at)
+                    ended = {ln.split()[1] for ln in at if ln[:2] in (b"E ", b"T ")}
+                    info["running_at_signal"] = sorted(int(ln.split()[1]) for ln in at if ln[:2] == b"S " and ln.split()[1] not in ended)
                     os.kill(pid, sigplan["sig"])
                     info["signal_sent"] = True
     finally:
